@@ -214,9 +214,10 @@ def run_pool_case(case, max_steps=None):
             if case["pool"] == "factory":
                 fac = Factory(ctx, quota, res.log, cfg)
                 res.factory = fac
-                pool = opp.FactoryFunctorPool(case["workers"], fac, ctx, wq, rq)
+                pool = opp.FactoryFunctorPool(case["workers"], fac, ctx, wq, rq, join_timeout=case.get("join_timeout"))
             else:
-                pool = opp.FunctorPool([SimWorker(ctx, quota, res.log, cfg) for _ in range(case["workers"])], ctx, wq, rq)
+                pool = opp.FunctorPool([SimWorker(ctx, quota, res.log, cfg) for _ in range(case["workers"])], ctx, wq, rq,
+                                       join_timeout=case.get("join_timeout"))
             res.pool = pool
             if gran_attr:
                 # every read and write of an attribute of the pool object (the state the consumer, the sending thread and the
@@ -437,10 +438,12 @@ def lifecycle_verdicts(case, res):
         over = {w: c for w, c in counts.items() if c > quota}
         if over:
             out.append(("%s/quota-exceeded" % name, "tasks %r delivered more than %d chunks" % (over, quota)))
-    if res.left_context and res.alive_at_exit:
+    if res.left_context and res.alive_at_exit and case.get("join_timeout") is None:
         out.append(("%s/worker-still-running-when-pool-context-left" % name,
                     "the pool context was left (no join_timeout) while %r had not finished (their end() had not completed)" % (res.alive_at_exit,)))
-    if isinstance(res.outcome, tuple) and res.outcome[0] == "deadlock" and res.left_context:
+    if isinstance(res.outcome, tuple) and res.outcome[0] == "deadlock" and res.left_context and case.get("join_timeout") is None:
+        # (with a join_timeout the statement does not promise that no worker is left behind: a stop order that could not be
+        # placed within the timeout is given up)
         out.append(("%s/%s" % (name, deadlock_sig(res)), "the pool context was left but tasks are still running: %s" % describe_deadlock(res)))
     return out
 
